@@ -1,6 +1,210 @@
-//! C02: not implemented yet.
+//! C02: tamper evidence of the manifest store bytes.
+//! A case names a store recipe {name, shape: single|parent, src: "hex:<jpeg bytes>"} and an operation:
+//!   op "prepare": build the store (sign a small JPEG; for shape "parent" sign once, then sign a second asset that
+//!                 takes the first signed asset as parentOf ingredient), both embedded and as a sidecar; cached under
+//!                 <build>/cases/c02_assets/<name>.{emb,side,c2pa}; out: embedded asset length, offset of the
+//!                 manifest store inside it, the store bytes, the sidecar store bytes, and the untouched reports.
+//!   op "mut":     carrier "jpeg": patch the embedded store at (store offset + pos); carrier "c2pa": patch the
+//!                 sidecar store and read it with the (unsigned) asset; m = {k: flip|set|replace, pos, bit|val|hex}
+//!                 ("replace" substitutes the whole sidecar store: structure edits are serialised by the check).
+//!                 out: state, codes, digest of the stable report JSON.
+use std::{cell::RefCell, collections::HashMap, io::Cursor, rc::Rc, sync::Arc};
+
+use c2pa::{Builder, Context, Reader};
 use serde_json::{json, Value};
 
-pub fn run(_case: &Value) -> Value {
-    json!({"r": "unimplemented"})
+use crate::{e2e, util::*};
+
+struct StoreAsset {
+    emb: Vec<u8>,      // asset with embedded store
+    off: usize,        // offset of the store bytes inside emb
+    store: Vec<u8>,    // the embedded store
+    side_asset: Vec<u8>, // asset signed with no_embed (no store inside)
+    side: Vec<u8>,     // its sidecar store
+}
+
+thread_local! {
+    static STORES: RefCell<HashMap<String, Rc<StoreAsset>>> = RefCell::new(HashMap::new());
+    static CTX: Arc<Context> = Arc::new(e2e::context(None));
+}
+
+fn dir() -> String {
+    let b = std::env::var("VERIF_BUILD").unwrap_or_else(|_| "/verif/.build".to_string());
+    format!("{b}/cases/c02_assets")
+}
+
+fn find(hay: &[u8], needle: &[u8]) -> Option<usize> {
+    if needle.is_empty() || hay.len() < needle.len() {
+        return None;
+    }
+    (0..=hay.len() - needle.len()).find(|&i| &hay[i..i + needle.len()] == needle)
+}
+
+fn sign_one(src: &[u8], title: &str, parent: Option<&[u8]>, no_embed: bool) -> Result<(Vec<u8>, Vec<u8>), String> {
+    let extra = json!({"builder": {"thumbnail": {"enabled": false}}}).to_string();
+    let ctx = e2e::context(Some(&extra));
+    let signer = e2e::signer("ed25519");
+    let def = if parent.is_some() {
+        json!({"title": title, "claim_generator_info": [{"name": "verif-harness", "version": "0.1"}]}).to_string()
+    } else {
+        e2e::minimal_manifest(title)
+    };
+    let mut b = Builder::from_context(ctx).with_definition(def.as_str()).map_err(|e| err_class(&e))?;
+    if parent.is_some() {
+        // the source stream (the signed parent asset) becomes the parentOf ingredient, with a c2pa.opened action
+        b.set_intent(c2pa::BuilderIntent::Edit);
+    }
+    let src = parent.unwrap_or(src);
+    b.set_no_embed(no_embed);
+    let mut input = Cursor::new(src.to_vec());
+    let mut out = Cursor::new(Vec::new());
+    let c2pa = b.sign(signer.as_ref(), "image/jpeg", &mut input, &mut out).map_err(|e| format!("sign: {} {}", err_class(&e), e))?;
+    Ok((out.into_inner(), c2pa))
+}
+
+fn build(recipe: &Value) -> Result<StoreAsset, String> {
+    let src = hex::decode(recipe["src"].as_str().unwrap_or("").trim_start_matches("hex:")).map_err(|e| e.to_string())?;
+    let parent = if recipe["shape"].as_str() == Some("parent") {
+        Some(sign_one(&src, "parent asset", None, false)?.0)
+    } else {
+        None
+    };
+    let (emb, _) = sign_one(&src, "active asset", parent.as_deref(), false)?;
+    let store = c2pa::jumbf_io::load_jumbf_from_stream("image/jpeg", &mut Cursor::new(&emb)).map_err(|e| err_class(&e))?;
+    let off = find(&emb, &store).ok_or("store bytes are not contiguous in the asset")?;
+    let (side_asset, side) = sign_one(&src, "active asset", parent.as_deref(), true)?;
+    Ok(StoreAsset { emb, off, store, side_asset, side })
+}
+
+fn load(recipe: &Value, fresh: bool) -> Result<Rc<StoreAsset>, String> {
+    let name = recipe["name"].as_str().unwrap_or("store").to_string();
+    if !fresh {
+        if let Some(a) = STORES.with(|m| m.borrow().get(&name).cloned()) {
+            return Ok(a);
+        }
+    }
+    let d = dir();
+    let p = |ext: &str| format!("{d}/{name}.{ext}");
+    let cached = if fresh {
+        None
+    } else {
+        match (std::fs::read(p("emb")), std::fs::read(p("side")), std::fs::read(p("c2pa"))) {
+            (Ok(emb), Ok(side_asset), Ok(side)) => {
+                let store = c2pa::jumbf_io::load_jumbf_from_stream("image/jpeg", &mut Cursor::new(&emb)).map_err(|e| err_class(&e))?;
+                let off = find(&emb, &store).ok_or("store bytes are not contiguous in the asset")?;
+                Some(StoreAsset { emb, off, store, side_asset, side })
+            }
+            _ => None,
+        }
+    };
+    let a = match cached {
+        Some(a) => a,
+        None => {
+            let a = build(recipe)?;
+            std::fs::create_dir_all(&d).ok();
+            for (ext, data) in [("emb", &a.emb), ("side", &a.side_asset), ("c2pa", &a.side)] {
+                let tmp = format!("{}.{}.tmp", p(ext), std::process::id());
+                std::fs::write(&tmp, data).map_err(|e| e.to_string())?;
+                std::fs::rename(&tmp, p(ext)).map_err(|e| e.to_string())?;
+            }
+            a
+        }
+    };
+    let a = Rc::new(a);
+    STORES.with(|m| m.borrow_mut().insert(name, a.clone()));
+    Ok(a)
+}
+
+/// JSON text with object keys sorted (Reader::json() iterates hash maps in arbitrary order)
+fn canon(v: &Value) -> String {
+    match v {
+        Value::Object(m) => {
+            let mut keys: Vec<&String> = m.keys().collect();
+            keys.sort();
+            let parts: Vec<String> = keys.iter().map(|k| format!("{}:{}", Value::String((*k).clone()), canon(&m[*k]))).collect();
+            format!("{{{}}}", parts.join(","))
+        }
+        Value::Array(a) => format!("[{}]", a.iter().map(canon).collect::<Vec<_>>().join(",")),
+        _ => v.to_string(),
+    }
+}
+
+fn fnv(s: &str) -> String {
+    let mut h: u64 = 0xcbf29ce484222325;
+    for b in s.as_bytes() {
+        h ^= *b as u64;
+        h = h.wrapping_mul(0x100000001b3);
+    }
+    format!("{h:016x}")
+}
+
+fn report(r: c2pa::Result<Reader>) -> Value {
+    match r {
+        Ok(r) => {
+            let rep = e2e::report(&r);
+            let js = canon(&e2e::stable_json(&r));
+            json!({"r": "ok", "state": rep["state"], "failure": rep["failure"], "success": rep["success"],
+                   "informational": rep["informational"], "deltas": rep["deltas"], "active": rep["active"], "jh": fnv(&js)})
+        }
+        Err(e) => json!({"r": "err", "kind": err_class(&e)}),
+    }
+}
+
+fn read_emb(bytes: &[u8]) -> Value {
+    let ctx = CTX.with(|c| c.clone());
+    report(Reader::from_shared_context(&ctx).with_stream("image/jpeg", Cursor::new(bytes.to_vec())))
+}
+
+fn read_side(c2pa: &[u8], asset: &[u8]) -> Value {
+    let ctx = CTX.with(|c| c.clone());
+    report(Reader::from_shared_context(&ctx).with_manifest_data_and_stream(c2pa, "image/jpeg", Cursor::new(asset.to_vec())))
+}
+
+fn patch(v: &mut [u8], m: &Value) {
+    let pos = m["pos"].as_u64().unwrap_or(0) as usize;
+    if pos >= v.len() {
+        return;
+    }
+    match m["k"].as_str().unwrap_or("") {
+        "flip" => v[pos] ^= 1u8 << (m["bit"].as_u64().unwrap_or(0) as u32 & 7),
+        "set" => v[pos] = m["val"].as_u64().unwrap_or(0) as u8,
+        "none" => {}
+        other => panic!("unknown mutation {other}"),
+    }
+}
+
+pub fn run(case: &Value) -> Value {
+    let recipe = &case["store"];
+    match case["op"].as_str().unwrap_or("mut") {
+        "prepare" => {
+            let a = match load(recipe, case["fresh"].as_bool().unwrap_or(true)) {
+                Ok(a) => a,
+                Err(e) => return json!({"r": "err", "stage": "build", "kind": e}),
+            };
+            json!({"r": "ok", "emb_len": a.emb.len(), "off": a.off, "store": hexe(&a.store), "side": hexe(&a.side),
+                   "read_emb": read_emb(&a.emb), "read_side": read_side(&a.side, &a.side_asset)})
+        }
+        _ => {
+            let a = match load(recipe, false) {
+                Ok(a) => a,
+                Err(e) => return json!({"r": "err", "stage": "build", "kind": e}),
+            };
+            let m = &case["m"];
+            if case["carrier"].as_str() == Some("c2pa") {
+                let side = if m["k"].as_str() == Some("replace") {
+                    hexd(&m["hex"])
+                } else {
+                    let mut s = a.side.clone();
+                    patch(&mut s, m);
+                    s
+                };
+                read_side(&side, &a.side_asset)
+            } else {
+                let mut f = a.emb.clone();
+                let n = a.store.len();
+                patch(&mut f[a.off..a.off + n], m);
+                read_emb(&f)
+            }
+        }
+    }
 }
